@@ -10,7 +10,9 @@ import (
 	"go/types"
 	"math"
 	"math/big"
+	"path/filepath"
 	"regexp"
+	"sort"
 	"strconv"
 	"strings"
 
@@ -481,6 +483,26 @@ func init() {
 		return strEq(la, lb)
 	}
 
+	// bytes.EqualFold: ASCII case folding byte by byte (bytes >= 0x80 must be
+	// equal: an under-approximation of Unicode folding, recorded as a note)
+	intrinsics["bytes.EqualFold"] = func(fr *frame, args []value) value {
+		a, b := bytesOf(args[0]), bytesOf(args[1])
+		if len(a) != len(b) {
+			fr.r.note("bytes.EqualFold on slices of different length treated as unequal (ASCII model)")
+			return tFalse
+		}
+		fold := func(x *Term) *Term {
+			isUp := mkAnd(bvCmp("bvuge", x, mkBV(8, 'A')), bvCmp("bvule", x, mkBV(8, 'Z')))
+			return mkIte(isUp, bvBin("bvadd", x, mkBV(8, 32)), x)
+		}
+		res := tTrue
+		for i := range a {
+			res = mkAnd(res, mkEq(fold(a[i]), fold(b[i])))
+		}
+		fr.r.note("bytes.EqualFold modelled with ASCII case folding")
+		return res
+	}
+
 	// strings.Builder (uses unsafe)
 	builderBuf := func(args []value) *value {
 		p := args[0].(*value)
@@ -598,6 +620,7 @@ func init() {
 	// ------------------------------------------------------------ sync / atomic
 	lockEv := func(ev string) externalFn {
 		return func(fr *frame, args []value) value {
+			fr.r.waitFrom = fr.caller
 			fr.r.syncEvent(ev, args[0])
 			return nil
 		}
@@ -652,6 +675,7 @@ func init() {
 		if q := fr.r.pools[p]; len(q) > 0 {
 			v := q[len(q)-1]
 			fr.r.pools[p] = q[:len(q)-1]
+			fr.r.markPooled(v, false)
 			return v
 		}
 		return poolNew(fr, p)
@@ -662,6 +686,9 @@ func init() {
 			return nil
 		}
 		fr.r.pools[p] = append(fr.r.pools[p], args[1])
+		if fr.r.poolStrict {
+			fr.r.markPooled(args[1], true)
+		}
 		return nil
 	}
 	intrinsics["(*sync.Once).Do"] = func(fr *frame, args []value) value {
@@ -783,7 +810,26 @@ func (r *run) syncEvent(ev string, obj value) {
 		id = len(r.syncIDs) + 1
 		r.syncIDs[p] = id
 	}
-	r.syncLog = append(r.syncLog, syncEv{ev: ev, obj: id, ptr: p})
+	if ev == "CondWait" {
+		// a Wait returns only after a wake-up: when the same invocation waits
+		// on the same condition variable again with no Broadcast / Signal in
+		// between (a `for !flag { Wait() }` loop whose flag nobody set), it
+		// blocks for good: the path ends there (what it did so far stands)
+		for i := len(r.syncLog) - 1; i >= 0; i-- {
+			e := r.syncLog[i]
+			if e.ptr != p {
+				continue
+			}
+			if e.ev == "CondBroadcast" || e.ev == "CondSignal" {
+				break
+			}
+			if e.ev == "CondWait" && e.from != nil && e.from == r.waitFrom {
+				r.facts["blocked"] = fmt.Sprintf("waits again on condition variable #%d that nobody signals", id)
+				panic(pathEnd{"blocked in Cond.Wait"})
+			}
+		}
+	}
+	r.syncLog = append(r.syncLog, syncEv{ev: ev, obj: id, ptr: p, from: r.waitFrom})
 	if r.tracing {
 		switch ev {
 		case "Lock":
@@ -823,9 +869,10 @@ func (r *run) syncEvent(ev string, obj value) {
 }
 
 type syncEv struct {
-	ev  string
-	obj int
-	ptr *value
+	ev   string
+	obj  int
+	ptr  *value
+	from *frame // CondWait: the invocation that waits
 }
 
 func init() {
@@ -1198,6 +1245,76 @@ func init() {
 		}
 		return nil
 	}
+	// vPoolStrict(): from now on an object handed to sync.Pool.Put is off
+	// limits until Get returns it again
+	apiIntrinsics["vPoolStrict"] = func(fr *frame, args []value) value {
+		fr.r.poolStrict = true
+		return nil
+	}
+	// vTraceRaceLabel(label): the obligation label under which the pairwise
+	// schedule composition of this entry's traces is reported
+	apiIntrinsics["vTraceRaceLabel"] = func(fr *frame, args []value) value {
+		fr.r.raceLabel = concreteString(args[0], "label")
+		return nil
+	}
+	// vWatchGlobals(prefix): every package-level variable of the package
+	// under test (not the harness's own) becomes a watched location named
+	// after the variable (struct-valued ones field by field); package-level
+	// sync.Mutex / sync.RWMutex variables are named prefix.<name>.
+	apiIntrinsics["vWatchGlobals"] = func(fr *frame, args []value) value {
+		prefix := concreteString(args[0], "prefix")
+		pkg := fr.fn.Pkg
+		if pkg == nil {
+			return nil
+		}
+		var names []string
+		for n := range pkg.Members {
+			names = append(names, n)
+		}
+		sort.Strings(names)
+		for _, n := range names {
+			g, ok := pkg.Members[n].(*ssa.Global)
+			if !ok || strings.HasPrefix(n, "init$") {
+				continue
+			}
+			if pos := pkg.Prog.Fset.Position(g.Pos()); strings.Contains(filepath.Base(pos.Filename), "zz_vsym") {
+				continue
+			}
+			cell := fr.r.globalAddr(g)
+			t := deref(g.Type())
+			isMutex := func(t types.Type) bool {
+				nt, isNamed := t.(*types.Named)
+				return isNamed && nt.Obj().Pkg() != nil && nt.Obj().Pkg().Path() == "sync" && (nt.Obj().Name() == "Mutex" || nt.Obj().Name() == "RWMutex")
+			}
+			if isMutex(t) {
+				fr.r.names[cell] = prefix + "." + n
+				continue
+			}
+			switch t.Underlying().(type) {
+			case *types.Signature, *types.Interface:
+				continue
+			}
+			fr.r.watch[cell] = n
+			if m, isMap := (*cell).(*smap); isMap && m != nil {
+				fr.r.watchMap[m] = n
+			}
+			if st, isStruct := t.Underlying().(*types.Struct); isStruct {
+				if fields, ok2 := (*cell).(structure); ok2 {
+					for i := 0; i < st.NumFields() && i < len(fields); i++ {
+						if isMutex(st.Field(i).Type()) {
+							fr.r.names[&fields[i]] = prefix + "." + n + "." + st.Field(i).Name()
+							continue
+						}
+						fr.r.watch[&fields[i]] = n + "." + st.Field(i).Name()
+						if m, isMap := fields[i].(*smap); isMap && m != nil {
+							fr.r.watchMap[m] = n + "." + st.Field(i).Name()
+						}
+					}
+				}
+			}
+		}
+		return nil
+	}
 	apiIntrinsics["vWatchMap"] = func(fr *frame, args []value) value {
 		if m, ok := args[0].(iface).v.(*smap); ok && m != nil {
 			fr.r.watchMap[m] = concreteString(args[1], "location")
@@ -1224,7 +1341,7 @@ func init() {
 				fr.r.violation("lock", "C11.nothing-held-at-return", "operation "+op+" returns while holding "+fr.r.nameOf(p))
 			}
 		}
-		fr.r.traces = append(fr.r.traces, traceRec{Op: op, Events: append([]string(nil), fr.r.trace...)})
+		fr.r.traces = append(fr.r.traces, traceRec{Op: op, Events: append([]string(nil), fr.r.trace...), Label: fr.r.raceLabel})
 		return nil
 	}
 }
@@ -1232,6 +1349,59 @@ func init() {
 type traceRec struct {
 	Op     string   `json:"op"`
 	Events []string `json:"events"`
+	Label  string   `json:"label,omitempty"`
+}
+
+// markPooled: the memory behind a value handed to sync.Pool.Put belongs to
+// the pool (that is, to whichever goroutine gets it next) until Get returns
+// it; with vPoolStrict a later access by the putter is a violation.
+func (r *run) markPooled(v value, on bool) {
+	if x, ok := v.(iface); ok {
+		v = x.v
+	}
+	set := func(c *value) {
+		if on {
+			r.pooled[c] = true
+		} else {
+			delete(r.pooled, c)
+		}
+	}
+	switch x := v.(type) {
+	case *smap:
+		if x != nil {
+			if on {
+				r.pooledMap[x] = true
+			} else {
+				delete(r.pooledMap, x)
+			}
+		}
+	case *value:
+		if x == nil {
+			return
+		}
+		set(x)
+		switch inner := (*x).(type) {
+		case structure:
+			for i := range inner {
+				set(&inner[i])
+				if m, isMap := inner[i].(*smap); isMap && m != nil {
+					r.markPooled(m, on)
+				}
+			}
+		case array:
+			for i := range inner {
+				set(&inner[i])
+			}
+		}
+	}
+}
+
+func (r *run) pooledHit() {
+	// reported once per path; the object may be in use by another goroutine
+	r.pooled = map[*value]bool{}
+	r.pooledMap = map[*smap]bool{}
+	r.facts["kind"] = "pool"
+	r.violation("pool", "vsym.no-use-of-a-pooled-object-after-put", "an object is read or written after it was handed to sync.Pool.Put: another goroutine may already own it")
 }
 
 func (r *run) nameOf(p *value) string {
